@@ -1126,6 +1126,17 @@ class C20(PropBase):
                                             "tool's report consists of %s (streams: %s)" % (p.strip(), dseq, k), "model": p.strip(), "impl": dseq})
         ctx["info"]["model_known_b_runs"] = sum(1 for k in self._kclass.values() if k[0])
         ctx["info"]["model_known_d_runs"] = sum(1 for k in self._kclass.values() if k[1])
+        # which stream kinds the compared reports had readable / unreadable (so that a reader sees that every printer was exercised)
+        kinds_ok, kinds_bad = set(), set()
+        for k in dq:
+            for tok in k.split(","):
+                name, st = tok.split("=")
+                if st == "0":
+                    kinds_ok.add(name)
+                elif st == "2":
+                    kinds_bad.add(name)
+        ctx["info"]["dump_kinds_printed"] = sorted(kinds_ok)
+        ctx["info"]["dump_kinds_unreadable"] = sorted(kinds_bad)
         ctx["info"]["dump_sequences_compared"] = dump_compared
         ctx["info"]["dump_sequence_mismatches"] = dump_mism
         ctx["info"]["dump_stream_views"] = len(dq)
